@@ -6,7 +6,7 @@
    lib/gen_tie.py can re-check one target at a time; the first block is the preamble. *)
 (* == block preamble == *)
 From Coq Require Import List NArith ZArith Bool Lia.
-From Coq Require Strings.String.
+From Coq Require Strings.String Strings.Ascii.
 From NextestModel Require Import Base.Tac Proofs.BridgeTac.
 From NextestModel Require gen.GenGlue.
 From NextestModel Require Base.Str Model.Junit.
@@ -15,10 +15,25 @@ From NextestModel Require Model.Overrides.
 From NextestModel Require Model.SignalNames Proofs.SignalNames.
 From NextestModel Require Model.DisplaySetting Proofs.DisplaySetting.
 From NextestModel Require Model.Filter Model.FutureQueue Model.Unit Model.Run Model.CliRun Model.ExecuteStream Proofs.ExecuteStream.
+From NextestModel Require Model.NameFilter Model.FilterFull Proofs.FilterGlue.
+From NextestModel Require Model.Scripts Model.EnvFileLine Proofs.EnvFileLine.
+From NextestModel Require Model.DisplaySections Proofs.DisplaySections.
+From NextestModel Require Model.EnvOrder Proofs.EnvOrder.
 Import ListNotations.
 Open Scope N_scope.
 
 Module G := NextestModel.gen.GenGlue.Glue.
+Module BS := NextestModel.Base.Str.
+Module MNF := NextestModel.Model.NameFilter.
+Module MFF := NextestModel.Model.FilterFull.
+Module PFG := NextestModel.Proofs.FilterGlue.
+Module MSc := NextestModel.Model.Scripts.
+Module MEL := NextestModel.Model.EnvFileLine.
+Module PEL := NextestModel.Proofs.EnvFileLine.
+Module MSe := NextestModel.Model.DisplaySections.
+Module PSe := NextestModel.Proofs.DisplaySections.
+Module MEO := NextestModel.Model.EnvOrder.
+Module PEO := NextestModel.Proofs.EnvOrder.
 Module MJ := NextestModel.Model.Junit.
 Module MFl := NextestModel.Model.Filter.
 Module MD := NextestModel.Model.Dispatcher.
@@ -507,3 +522,267 @@ Proof.
   intros u s f v. destruct u as [fs ff de]. cbn [G.UnitOutputReporter_force_failure_output G.UnitOutputReporter_force_success_output].
   repeat split; intros; subst; try (destruct r as [| |[] []| |]; try discriminate); bridge.
 Qed.
+
+(* ---------------------------------------------------------------- fourth round: further glue fragments (docs/notes/Gen.md, fourth part) *)
+(* ---------------------------------------------------------------- the whole of TestFilter::filter_match (Model/FilterFull.v, C13 / C04) *)
+(* == block conv_filter == *)
+(* From the model's filter to what the generated functions take. The resolved patterns are seen by their shape; the
+   answers of the matchers (HashSet::contains, AhoCorasick::is_match, Filterset::matches_test, Partitioner::test_matches)
+   are inputs of the generated functions (probes): here they are the model's answers. [d] stands for the value of a probe
+   at a position the source does not ask it (any boolean). The -E filtersets are tokens: their indices. *)
+
+Definition gmismatch_to_model (m : G.MismatchReason) : MFl.mismatch :=
+  match m with
+  | G.MismatchReason_Ignored => MFl.MIgnored
+  | G.MismatchReason_String => MFl.MString
+  | G.MismatchReason_Expression => MFl.MExpression
+  | G.MismatchReason_Partition => MFl.MPartition
+  | G.MismatchReason_DefaultFilter => MFl.MDefaultFilter
+  end.
+Definition gfmatch_to_model (f : G.FilterMatch) : MFl.fmatch :=
+  match f with
+  | G.FilterMatch_Matches => MFl.Matches
+  | G.FilterMatch_Mismatch r => MFl.Mismatch (gmismatch_to_model r)
+  end.
+Definition run_ignored_of_model (r : MFl.run_ignored) : G.RunIgnored :=
+  match r with MFl.RIDefault => G.RunIgnored_Default | MFl.RIOnly => G.RunIgnored_Only | MFl.RIAll => G.RunIgnored_All end.
+Definition patterns_of_model (r : MNF.resolved) : G.ResolvedFilterPatterns :=
+  match r with
+  | MNF.RAll => G.ResolvedFilterPatterns_All
+  | MNF.RSkipOnly _ _ => G.ResolvedFilterPatterns_SkipOnly
+  | MNF.RPatterns _ _ _ _ => G.ResolvedFilterPatterns_Patterns
+  end.
+Definition set_tokens (ets : list (BS.str -> bool)) : list N := map N.of_nat (seq 0 (length ets)).
+Definition exprs_of_model (ets : list (BS.str -> bool)) : G.TestFilterExprs :=
+  match ets with [] => G.TestFilterExprs_All | _ => G.TestFilterExprs_Sets (set_tokens ets) end.
+Definition set_matches_of_model (ets : list (BS.str -> bool)) (name : BS.str) : N -> bool :=
+  fun i => nth (N.to_nat i) ets (fun _ => false) name.
+Definition bound_of_model (b : MFF.bound) : G.FilterBound :=
+  match b with MFF.BAll => G.FilterBound_All | MFF.BDefaultSet => G.FilterBound_DefaultSet end.
+Definition filter_view (f : MFF.tfilter) : G.TestFilter :=
+  G.mk_TestFilter (run_ignored_of_model (MFF.tf_ri f)) (patterns_of_model (MFF.tf_pats f)) (exprs_of_model (MFF.tf_ets f))
+    (match MFF.tf_pb f with Some _ => Some 0 | None => None end).
+Definition skip_exact_of (d : bool) (r : MNF.resolved) (name : BS.str) : bool :=
+  match r with MNF.RAll => d | MNF.RSkipOnly _ sx => BS.mem_str name sx | MNF.RPatterns _ _ _ sx => BS.mem_str name sx end.
+Definition skip_match_of (d : bool) (r : MNF.resolved) (name : BS.str) : bool :=
+  match r with MNF.RAll => d | MNF.RSkipOnly sk _ => MNF.any_infix sk name | MNF.RPatterns _ _ sk _ => MNF.any_infix sk name end.
+Definition exact_of (d : bool) (r : MNF.resolved) (name : BS.str) : bool :=
+  match r with MNF.RPatterns _ ex _ _ => BS.mem_str name ex | _ => d end.
+Definition pattern_match_of (d : bool) (r : MNF.resolved) (name : BS.str) : bool :=
+  match r with MNF.RPatterns su _ _ _ => MNF.any_infix su name | _ => d end.
+Definition partition_matches_of (d : bool) (pb : option MFl.pbuilder) (cur : N) (name : BS.str) : bool :=
+  match pb with Some b => fst (MFl.part_match b cur name) | None => d end.
+
+Lemma existsb_set_tokens_from :
+  forall (l pre : list (BS.str -> bool)) name,
+    existsb (fun i => nth (N.to_nat i) (pre ++ l) (fun _ => false) name) (map N.of_nat (seq (length pre) (length l))) =
+    existsb (fun g => g name) l.
+Proof.
+  induction l as [|a l IH]; intros pre name; [reflexivity|].
+  cbn [length seq map existsb]. rewrite Nat2N.id, nth_middle. f_equal.
+  specialize (IH (pre ++ [a]) name). rewrite <- app_assoc in IH. cbn [app] in IH.
+  rewrite app_length in IH. cbn [length] in IH. rewrite Nat.add_1_r in IH. exact IH.
+Qed.
+Lemma existsb_set_tokens :
+  forall ets name, existsb (fun v => set_matches_of_model ets name v) (set_tokens ets) = existsb (fun g => g name) ets.
+Proof. intros. exact (existsb_set_tokens_from ets [] name). Qed.
+
+
+(* == block filter_match (needs conv_filter) == *)
+(* TestFilter::filter_match as a whole -- filter_ignored_mismatch, then ResolvedFilterPatterns::name_match and
+   filter_expression_match combined with the name reason first, then filter_partition_mismatch, else Matches --
+   regenerated from the source, is Model/FilterFull.v's [filter_match_full] for every filter, partitioner state, test name
+   and ignored flag. *)
+Lemma gen_filter_match_is_model :
+  forall (f : MFF.tfilter) cur name ign tb tn ecx d,
+    gfmatch_to_model
+      (G.TestFilter_filter_match (filter_view f) tb tn ecx (bound_of_model (MFF.tf_bound f)) ign
+         (skip_exact_of d (MFF.tf_pats f) name) (skip_match_of d (MFF.tf_pats f) name)
+         (exact_of d (MFF.tf_pats f) name) (pattern_match_of d (MFF.tf_pats f) name)
+         (set_matches_of_model (MFF.tf_ets f) name) (MFF.tf_dt f name)
+         (partition_matches_of d (MFF.tf_pb f) cur name)) =
+    fst (MFF.filter_match_full f cur name ign).
+Proof.
+  intros [ri pb pats ets dt bd] cur name ign tb tn ecx d.
+  unfold MFF.filter_match_full, MFF.pre_full, MFF.filter_expression_match, MFl.filter_match, filter_view,
+    G.TestFilter_filter_match, G.TestFilter_filter_expression_match, G.TestFilter_filter_partition_mismatch,
+    partition_matches_of.
+  cbn [MFF.tf_ri MFF.tf_pb MFF.tf_pats MFF.tf_ets MFF.tf_dt MFF.tf_bound G.TestFilter_builder_exprs G.TestFilter_partitioner].
+  destruct pb as [b|]; [destruct (MFl.part_match b cur name) as [ok cur'] |];
+  (destruct ets as [|e0 ets']; cbn [exprs_of_model];
+   [| rewrite existsb_set_tokens; generalize (existsb (fun g => g name) (e0 :: ets')); intro anyb ];
+   generalize (dt name); intro dtb;
+   destruct pats; cbn [skip_exact_of skip_match_of exact_of pattern_match_of MNF.rname_match patterns_of_model];
+   repeat match goal with |- context [BS.mem_str ?a ?b] => generalize (BS.mem_str a b); intro end;
+   repeat match goal with |- context [MNF.any_infix ?a ?b] => generalize (MNF.any_infix a b); intro end;
+   bridge).
+Qed.
+
+(* read off the generated function alone: with a partitioner, nothing is selected that the partitioner did not accept --
+   whichever of MatchEmptyPatterns / MatchWithPatterns the name and expression stages answered *)
+Lemma gen_filter_match_needs_partition :
+  forall self tb tn ecx bd ign p1 p2 p3 p4 pm pd pp tok,
+    G.TestFilter_partitioner self = Some tok ->
+    G.TestFilter_filter_match self tb tn ecx bd ign p1 p2 p3 p4 pm pd pp = G.FilterMatch_Matches -> pp = true.
+Proof.
+  intros [ri pats exprs part] tb tn ecx bd ign p1 p2 p3 p4 pm pd pp tok Hp. cbn in Hp. subst part.
+  unfold G.TestFilter_filter_match, G.TestFilter_filter_expression_match, G.TestFilter_filter_partition_mismatch,
+    G.TestFilter_filter_name_match, G.ResolvedFilterPatterns_name_match, G.TestFilter_filter_ignored_mismatch.
+  cbn [G.TestFilter_builder_exprs G.TestFilter_partitioner G.TestFilter_builder_patterns G.TestFilter_builder_run_ignored].
+  destruct exprs as [|l]; [| generalize (existsb (fun v_expr => pm v_expr) l); intro anyb ];
+  bridge_norm; repeat (bridge_case; cbv beta iota); intro H; first [reflexivity | discriminate H].
+Qed.
+
+(* ---------------------------------------------------------------- one line of a setup script's environment file (Model/EnvFileLine.v, C18) *)
+(* == block conv_bytes == *)
+(* Rust strings are Coq strings in the generated file (bytes of the UTF-8 encoding); the models use lists of numbers.
+   str::split_once('=') and str::starts_with("..") as translated (str_split_once, Coq's Strings.String.prefix) are the model's
+   split_once_eq / is_prefix on the bytes: '=' and the letters of NEXTEST are ASCII, and an ASCII byte never occurs
+   inside a multi-byte sequence, so splitting and prefix tests on bytes and on code points agree. *)
+
+Definition G_EQ : Ascii.ascii := Ascii.Ascii true false true true true true false false.
+(* a Rust string as the bytes of its UTF-8 encoding *)
+Fixpoint bytes_of_string (s : Strings.String.string) : BS.str :=
+  match s with Strings.String.EmptyString => [] | Strings.String.String a r => Ascii.N_of_ascii a :: bytes_of_string r end.
+Definition line_result_to_model (r : (Strings.String.string * Strings.String.string) + G.SetupScriptOutputError)
+  : option ((BS.str * BS.str) + MEL.line_error) :=
+  match r with
+  | inl (k, v) => Some (inl (bytes_of_string k, bytes_of_string v))
+  | inr G.SetupScriptOutputError_EnvFileParse => Some (inr MEL.LineNoEquals)
+  | inr G.SetupScriptOutputError_EnvFileReservedKey => Some (inr MEL.LineReservedKey)
+  | inr _ => None
+  end.
+Lemma ascii_eqb_bytes : forall a b, Ascii.eqb a b = (Ascii.N_of_ascii a =? Ascii.N_of_ascii b).
+Proof.
+  intros a b. destruct (Ascii.eqb_spec a b) as [->|Hne]; [symmetry; apply N.eqb_refl|].
+  symmetry. apply N.eqb_neq. intros H. apply Hne.
+  rewrite <- (Ascii.ascii_N_embedding a), <- (Ascii.ascii_N_embedding b), H. reflexivity.
+Qed.
+Lemma split_once_bytes :
+  forall s, MSc.split_once_eq (bytes_of_string s) =
+            option_map (fun kv => (bytes_of_string (fst kv), bytes_of_string (snd kv))) (G.str_split_once G_EQ s).
+Proof.
+  induction s as [|a s IH]; [reflexivity|].
+  cbn [bytes_of_string MSc.split_once_eq]. unfold G.str_split_once; fold (G.str_split_once G_EQ).
+  rewrite ascii_eqb_bytes. change (Ascii.N_of_ascii G_EQ) with MSc.EQ.
+  destruct (Ascii.N_of_ascii a =? MSc.EQ); [reflexivity|].
+  rewrite IH. destruct (G.str_split_once G_EQ s) as [[k v]|]; reflexivity.
+Qed.
+Lemma prefix_bytes : forall p s, Strings.String.prefix p s = BS.is_prefix (bytes_of_string p) (bytes_of_string s).
+Proof.
+  induction p as [|a p IH]; intros [|b s]; try reflexivity.
+  cbn [Strings.String.prefix bytes_of_string BS.is_prefix]. rewrite <- ascii_eqb_bytes.
+  destruct (Ascii.ascii_dec a b) as [->|Hne]; [rewrite Ascii.eqb_refl; apply IH|].
+  apply Ascii.eqb_neq in Hne. rewrite Hne. reflexivity.
+Qed.
+Lemma string_eqb_bytes : forall a b, Strings.String.eqb a b = BS.str_eqb (bytes_of_string a) (bytes_of_string b).
+Proof.
+  induction a as [|x a IH]; intros [|y b]; try reflexivity.
+  cbn [String.eqb bytes_of_string BS.str_eqb]. rewrite <- ascii_eqb_bytes. destruct (Ascii.eqb x y); [apply IH | reflexivity].
+Qed.
+
+
+(* == block env_file_line (needs conv_bytes) == *)
+Module StrLit. Import Strings.String. Definition nextest_lit : string := "NEXTEST". End StrLit.
+(* the model's step in terms of the string primitives of the generated side *)
+Lemma line_step_bytes :
+  forall line,
+    MEL.line_step (bytes_of_string line) =
+    match G.str_split_once G_EQ line with
+    | Some (k, v) => if Strings.String.prefix StrLit.nextest_lit k then inr MEL.LineReservedKey else inl (bytes_of_string k, bytes_of_string v)
+    | None => inr MEL.LineNoEquals
+    end.
+Proof.
+  intros line. unfold MEL.line_step. rewrite split_once_bytes.
+  destruct (G.str_split_once G_EQ line) as [[k v]|]; cbn [option_map fst snd]; [|reflexivity].
+  rewrite prefix_bytes. reflexivity.
+Qed.
+
+(* [bridge] with the string primitives kept folded: they are atoms of the case analysis *)
+Ltac bridge_str :=
+  timeout 240 (intros; cbv -[bytes_of_string Strings.String.prefix Strings.String.eqb G.str_split_once];
+               repeat (bridge_case; cbv beta iota); bridge_leaf).
+Lemma gen_env_file_line_is_model :
+  forall line, line_result_to_model (G.env_file_line line) = Some (MEL.line_step (bytes_of_string line)).
+Proof. intros line. rewrite line_step_bytes. bridge_str. Qed.
+
+(* the loop of Model/Scripts.v (the function C18's environment-file theorems are about) makes exactly this step for
+   every line *)
+Lemma gen_env_file_loop_is_model :
+  forall line rest acc,
+    MSc.parse_lines (bytes_of_string line :: rest) acc =
+    match G.env_file_line line with
+    | inl (k, v) => MSc.parse_lines rest (MSc.env_insert (bytes_of_string k) (bytes_of_string v) acc)
+    | inr _ => None
+    end.
+Proof.
+  intros line rest acc. rewrite PEL.parse_lines_step.
+  pose proof (gen_env_file_line_is_model line) as H.
+  destruct (G.env_file_line line) as [[k v]|[]]; cbn in H; inversion H; reflexivity.
+Qed.
+
+(* ---------------------------------------------------------------- the sections of a unit's output (Model/DisplaySections.v, C16) *)
+(* == block display_sections == *)
+(* UnitOutputReporter::write_child_output: the streams handed to write_test_single_output_with_description and the
+   headers written by writeln!, in order, each under the condition it is written, regenerated from the source, are the
+   streams / the headers of the model's sections: for split capture standard output then standard error, each shown when
+   it was captured and is non-empty or empty streams are displayed -- on its own account; one section for combined
+   capture. For every reporter, every pair of streams (a stream is its buffer and whether it is empty) and headers. *)
+Definition model_sections (u : G.UnitOutputReporter) (o : G.ChildOutput) (ho he hc : N) : list (G.ChildSingleOutput * N) :=
+  match o with
+  | G.ChildOutput_Split sp =>
+      MSe.split_sections _ _ G.ChildSingleOutput_is_empty (G.UnitOutputReporter_display_empty_outputs u)
+        (G.ChildSplitOutput_stdout sp) (G.ChildSplitOutput_stderr sp) ho he
+  | G.ChildOutput_Combined c =>
+      MSe.combined_sections _ _ G.ChildSingleOutput_is_empty (G.UnitOutputReporter_display_empty_outputs u) c hc
+  end.
+Lemma gen_display_sections_is_model :
+  forall u o ho he hc,
+    G.display_sections u o = map fst (model_sections u o ho he hc) /\
+    G.display_section_headers u o ho he hc = map snd (model_sections u o ho he hc).
+Proof. intros [fs ff de] [[so se]|c] ho he hc; split; bridge. Qed.
+
+(* ---------------------------------------------------------------- the order of the environment sources in TestCommand::new (Model/EnvOrder.v, C15) *)
+(* == block env_order == *)
+(* Who provides the value a call on the Command writes (the hand-written side of this tie): the [env] table of the cargo
+   configuration (EnvironmentMap::apply_env), OUT_DIR and the build script's rustc-env variables are the user's / the
+   build's; variables whose name begins with NEXTEST, __NEXTEST or CARGO_, apply_package_env (CARGO_PKG_*, when it is not
+   followed) and apply_ld_dyld_env (the dynamic library path and its NEXTEST_LD_* / NEXTEST_DYLD_* copies) are nextest's
+   own; Command::new / current_dir write no variable; anything else is unknown to the model. ("*env": env called in a
+   loop.) *)
+Module EnvClassify.
+  Import Strings.String.
+  Definition of_key (k : string) : MEO.source :=
+    if String.eqb k "OUT_DIR" then MEO.SrcUser
+    else if prefix "NEXTEST" k || prefix "__NEXTEST" k || prefix "CARGO_" k then MEO.SrcNextest
+    else MEO.SrcUnknown.
+  Definition of_call (c : string * list string) : MEO.source :=
+    let '(m, args) := c in
+    if String.eqb m "new" || String.eqb m "current_dir" then MEO.SrcNeutral
+    else if String.eqb m "apply_env" || String.eqb m "apply_build_script_env" then MEO.SrcUser
+    else if String.eqb m "apply_package_env" || String.eqb m "apply_ld_dyld_env" then MEO.SrcNextest
+    else if String.eqb m "env" || String.eqb m "*env" then
+           match args with k :: _ => of_key k | [] => MEO.SrcUnknown end
+    else MEO.SrcUnknown.
+  (* the first call that writes a variable *)
+  Definition first_writer (calls : list (string * list string)) : option string :=
+    match filter (fun c => match of_call c with MEO.SrcNeutral => false | _ => true end) calls with
+    | (m, _) :: _ => Some m
+    | [] => None
+    end.
+  Definition config_env_call : string := "apply_env".
+End EnvClassify.
+(* TestCommand::new, the calls it makes on the Command in order (apply_package_env followed), regenerated from the source:
+   whether or not the package has a build-script output directory ([c]: the condition of that `if` is an input), every
+   call is one the model knows, every user / build source comes before every source of nextest's own, both kinds
+   occur, and the [env] table of the cargo configuration is applied first of all (so that OUT_DIR and the build
+   script's variables win over it, like nextest's own). *)
+Lemma gen_env_order_is_model :
+  forall c,
+    let sources := map EnvClassify.of_call (G.test_command_env c) in
+    MEO.all_classified sources = true /\
+    MEO.user_before_nextest sources = true /\
+    existsb MEO.is_user sources = true /\
+    existsb (fun s => match s with MEO.SrcNextest => true | _ => false end) sources = true /\
+    EnvClassify.first_writer (G.test_command_env c) = Some EnvClassify.config_env_call.
+Proof. intros c. destruct c; vm_compute; repeat split; reflexivity. Qed.
